@@ -110,6 +110,7 @@ type Exec struct {
 	maxOps     int
 	liveness   bool // deadlock / step overrun is a property violation in this profile
 	recovering bool
+	handleGen  int  // generation whose handle count is meaningful (no failed Open / fault since)
 	lastPower  bool // the most recent crash was a power loss
 	wals       map[string]*wal.WAL
 	conc       *concState
@@ -682,6 +683,7 @@ func (ex *Exec) mainTask(g *Gen) {
 		}
 	}
 	ex.w = w
+	ex.handleGen = ex.gen
 	ex.openWindow(nil)
 	if ex.recovering || ex.gen == 0 {
 		// Only after a power loss is what recovery read also what is durable:
@@ -1756,6 +1758,13 @@ func (ex *Exec) dirOracle(where string) {
 			class = "dir-missing-files"
 		}
 		ex.violate("dir-matches-metadata", class+":"+where, "%s: directory %v != metadata segments %v", where, got, want)
+	}
+	if ex.conc == nil || ex.conc.writerDone {
+		// every live segment holds exactly one handle (the tail's writer doubles as
+		// its reader); handles of removed segments must be gone once no read is in flight
+		if ex.g.openHandles != len(st.Segments) && ex.gen == ex.handleGen {
+			ex.violate("handles-released", "handles-vs-segments:"+where, "%s: %d file handles open for %d live segments", where, ex.g.openHandles, len(st.Segments))
+		}
 	}
 	for _, s := range st.Segments {
 		if s.ID >= st.NextSegmentID {
